@@ -20,6 +20,7 @@
 //!
 //!   gcverif-conv [--tier quick|thorough] [--seed N] [--start IDX] [--only FILE] [--list]
 
+mod alias;
 mod run;
 mod shape;
 mod track;
@@ -346,6 +347,45 @@ fn zst_grid(cx: &mut Cx) {
     grid!([G1, G2, G4, G8, G16, G32, G64, N1, N2, N4, N8, N16, N32, N64], [1, 2, 4, 8, 16, 32, 64, 128, 4096]);
 }
 
+fn alias_grid(cx: &mut Cx) {
+    use alias::*;
+    let chains = grid_chains();
+    let mut pairs: Vec<(&str, &str)> = Vec::new();
+    for a in DYN_TYPES {
+        for b in DYN_TYPES {
+            if a != b {
+                pairs.push((a, b));
+            }
+        }
+    }
+    pairs.push(("u:2", "u:3"));
+    pairs.push(("u:3", "u:2"));
+    let mut k: u64 = cx.seed;
+    for (a, b) in pairs {
+        for m in MAXES {
+            for rel in Rel::ALL {
+                for (i, c1) in chains.iter().enumerate() {
+                    for (j, c2) in chains.iter().enumerate() {
+                        // quick: every chain against itself and against a rotating third of the others
+                        k = k.wrapping_add(1);
+                        if !cx.thorough && i != j && (i + j + k as usize) % 3 != 0 {
+                            continue;
+                        }
+                        cx.run(alias_query(m, a, b, rel, c1, c2), |out| {
+                            if !alias_case(m, a, b, rel, c1, c2, out) {
+                                out.answer = Some("not-instantiated".into());
+                            }
+                        });
+                    }
+                }
+            }
+        }
+    }
+    for (n, kk) in [(5, 2), (5, 0), (5, 5), (1, 0), (300, 255), (300, 1), (2, 1)] {
+        cx.run(format!("prefix {n} {kk}"), |out| prefix_case(n, kk, out));
+    }
+}
+
 /// Run a single query line (replay).
 fn run_query(cx: &mut Cx, q: &str) {
     let w: Vec<&str> = q.split_whitespace().collect();
@@ -358,6 +398,24 @@ fn run_query(cx: &mut Cx, q: &str) {
             let age = [Age::Fresh, Age::Black, Age::Ww].iter().copied().find(|p| p.name() == *age);
             if let (Some(placement), Some(sched), Some(phase), Some(age)) = (placement, sched, phase, age) {
                 run_one(cx, t, &chain, Combo { placement, sched, phase, age });
+            }
+        }
+        ["alias", m, t1, t2, rel, c1, c2] => {
+            let rel = alias::Rel::ALL.iter().copied().find(|r| r.name() == *rel);
+            if let (Ok(m), Some(rel), Some(c1), Some(c2)) = (m.parse::<usize>(), rel, parse_chain(c1), parse_chain(c2)) {
+                let (t1, t2) = (t1.to_string(), t2.to_string());
+                cx.run(alias::alias_query(m, &t1, &t2, rel, &c1, &c2), |out| {
+                    if !alias::alias_case(m, &t1, &t2, rel, &c1, &c2, out) {
+                        out.answer = Some("not-instantiated".into());
+                    }
+                });
+            }
+        }
+        ["prefix", n, k] => {
+            if let (Ok(n), Ok(k)) = (n.parse::<usize>(), k.parse::<usize>()) {
+                if k <= n && n <= 4096 {
+                    cx.run(format!("prefix {n} {k}"), |out| alias::prefix_case(n, k, out));
+                }
             }
         }
         _ => {}
@@ -444,6 +502,7 @@ fn main() {
         }
     } else {
         zst_grid(&mut cx);
+        alias_grid(&mut cx);
         let main_targets = [Target::Sized, Target::Dyn, Target::Array, Target::Slice(3), Target::Str(5)];
         for t in main_targets {
             target_cases(&mut cx, t, true, 4);
